@@ -289,19 +289,175 @@ def memo_input_rule(chk: Check, eng: Engine, rule: str, scope: tuple = MEMO_SCOP
                     kdeps = param_deps(a.targets[0].slice) | param_deps(key_expr)
                     vdeps = param_deps(a.value)
                     missing = sorted(d for d in vdeps if d not in kdeps and d.split(".")[0] not in kdeps)
+                    # a parameter object used as the key covers only what its __eq__ / __hash__ look at
+                    for d in sorted(vdeps):
+                        base_, _, attr_ = d.partition(".")
+                        if attr_ and base_ in kdeps and d not in kdeps:
+                            ident = _identity_of_param(eng, f, base_)
+                            if ident is not None and attr_ not in ident and attr_.lstrip("_") not in {i.lstrip("_") for i in ident}:
+                                missing.append(f"{d} (the key `{base_}` is compared by {sorted(ident)} only)")
                     if missing:
                         chk.bad(rule, eng.relfile(f), a.lineno, f.fq, f"`{short(a, 60)}` is served again for every later key `{short(key_expr, 30)}`, but it is built from {missing}, which the key does not cover",
                                 "the first value stored under a key answers for all later arguments with that key: e.g. the replacement node of a message type keeps the sender and recipient of its first "
                                 "occurrence", keyparts=f"keyed-memo|{store_attr}|" + ",".join(missing))
                     else:
                         chk.ok(rule, f.fq, a.lineno, f"keyed memo `self.{store_attr}`: the key covers every input of the stored value")
+        # (c) keyed memo through `.get`: `v = self.d.get(k)` / `if v is None: <produce>; self.d[k] = v` - besides the parameters, the producer may
+        #     read state of the object that somebody else sets before the call (a hidden input); the key has to cover that as well
+        for g in walk_local(f.node):
+            if not (isinstance(g, ast.Assign) and len(g.targets) == 1 and isinstance(g.targets[0], ast.Name) and isinstance(g.value, ast.Call)
+                    and isinstance(g.value.func, ast.Attribute) and g.value.func.attr == "get" and self_attr(g.value.func.value) and g.value.args):
+                continue
+            var, store_attr, key_expr = g.targets[0].id, self_attr(g.value.func.value), g.value.args[0]
+            for i_ in walk_local(f.node):
+                if not (isinstance(i_, ast.If) and isinstance(i_.test, ast.Compare) and isinstance(i_.test.left, ast.Name) and i_.test.left.id == var
+                        and len(i_.test.ops) == 1 and isinstance(i_.test.ops[0], ast.Is) and isinstance(i_.test.comparators[0], ast.Constant) and i_.test.comparators[0].value is None):
+                    continue
+                stores = [a for a in ast.walk(i_) if isinstance(a, ast.Assign) and len(a.targets) == 1 and isinstance(a.targets[0], ast.Subscript) and self_attr(a.targets[0].value) == store_attr]
+                if not stores:
+                    continue
+                n += 1
+                kdeps = param_deps(key_expr)
+                vdeps: set[str] = set()
+                for st_ in i_.body:
+                    for a in ast.walk(st_):
+                        if isinstance(a, ast.Assign):
+                            vdeps |= param_deps(a.value)
+                missing = sorted(d for d in vdeps if d not in kdeps and d.split(".")[0] not in kdeps)
+                hidden = _hidden_inputs(eng, f, i_.body)
+                if missing or hidden:
+                    what = missing + [f"self.{h} (set from outside by {w})" for h, w in sorted(hidden.items())]
+                    chk.bad(rule, eng.relfile(f), stores[0].lineno, f.fq, f"the memo `self.{store_attr}[{short(key_expr, 30)}]` is filled from {what}, which the key does not cover",
+                            "the entry computed for the first caller is served to every later one with the same key, although what they would compute differs "
+                            "(e.g. the parse of a message history depends on the contents of the recorded messages, not only on their types)", keyparts=f"get-memo|{store_attr}|" + ",".join(sorted(hidden) + missing))
+                else:
+                    chk.ok(rule, f.fq, stores[0].lineno, f"keyed memo `self.{store_attr}` (get / store): the key covers the parameters and no externally set state is read on the miss path")
     return n
+
+
+def generator_cleanup_rule(chk: Check, eng: Engine, rule: str) -> int:
+    """R12-h.  A parse request is a generator, and callers abandon generators (Parser.parse takes the first tree).  The clean-up of a generator -
+    a `finally` block, an `except GeneratorExit` - runs when the abandoned object is closed or collected: at an arbitrary later time, possibly
+    while another request on the same grammar is suspended between two yields.  It must therefore not write the state the requests share
+    (the iterative parser of the grammar): no assignment through `self`, no call of a method that assigns attributes of its receiver."""
+    n = 0
+
+    def writes_state(m: FuncInfo, depth: int = 0) -> bool:
+        for x in walk_local(m.node):
+            if isinstance(x, ast.Attribute) and isinstance(x.ctx, (ast.Store, ast.Del)) and isinstance(x.value, ast.Name) and x.value.id == "self":
+                return True
+            if depth < 2 and isinstance(x, ast.Call) and isinstance(x.func, ast.Attribute) and self_attr(x.func) and m.cls is not None:
+                g = m.cls.lookup(x.func.attr)
+                if g is not None and g.fq != m.fq and writes_state(g, depth + 1):
+                    return True
+        return False
+
+    for f in eng.ix.all_functions:
+        if f.cls is None or not (f.module.startswith(PMOD) or (f.module == "fandango.language.grammar.grammar" and f.name.startswith("parse"))) or not f.is_generator():
+            continue
+        n += 1
+        bad = None
+        for t in walk_local(f.node):
+            if not isinstance(t, ast.Try):
+                continue
+            cleanup = list(t.finalbody)
+            for h in t.handlers:
+                if h.type is not None and "GeneratorExit" in norm(h.type):
+                    cleanup += h.body
+            yields_inside = any(isinstance(y, (ast.Yield, ast.YieldFrom)) for b in t.body for y in ast.walk(b))
+            if not cleanup or not yields_inside:
+                continue
+            env = eng.env(f)
+            for st in cleanup:
+                for x in ast.walk(st):
+                    if isinstance(x, ast.Attribute) and isinstance(x.ctx, (ast.Store, ast.Del)) and norm(x).startswith("self."):
+                        bad = bad or (x, f"`{short(st, 60)}` assigns shared state")
+                    if isinstance(x, ast.Call) and isinstance(x.func, ast.Attribute) and norm(x.func.value).startswith("self"):
+                        for fq in env.type_of(x.func.value) or ({f.cls.fq} if norm(x.func.value) == "self" else set()):
+                            mod, _, cname = fq.partition(":")
+                            k = eng.ix.modules[mod].classes.get(cname) if mod in eng.ix.modules else None
+                            g = k.lookup(x.func.attr) if k is not None else None
+                            if g is not None and writes_state(g):
+                                bad = bad or (x, f"`{short(x, 50)}` re-initialises state of the shared {cname}")
+        if bad:
+            chk.bad(rule, eng.relfile(f), bad[0].lineno, f.fq, f"the clean-up of the generator {f.qualname} writes shared parser state: {bad[1]}",
+                    "the clean-up runs whenever an abandoned parse iterator is closed or collected - also while another request on the same grammar is half-way through: "
+                    "that request continues on a re-initialised parser (wrong mode, empty table) and its truncated forest is cached", keyparts=f"generator-cleanup|{f.qualname}")
+        else:
+            chk.ok(rule, f.fq, f.line, f"{f.qualname}: no clean-up code that writes shared state runs when the generator is abandoned")
+    return n
+
+
+def _identity_of_param(eng: Engine, f: FuncInfo, param: str) -> Optional[set]:
+    """Attributes that __eq__ / __hash__ of the (annotated) class of a parameter look at; None if unknown or identity-hashed."""
+    from .common_memo import class_line, identity_fields
+    tys = eng.env(f).type_of(ast.Name(id=param, ctx=ast.Load()))
+    out: Optional[set] = None
+    for fq in tys:
+        mod, _, cname = fq.partition(":")
+        m = eng.ix.modules.get(mod)
+        c = m.classes.get(cname) if m else None
+        if c is None:
+            continue
+        ident = identity_fields(class_line(c))
+        if ident is None:
+            return None
+        out = ident if out is None else (out & ident)
+    return out
+
+
+def _hidden_inputs(eng: Engine, f: FuncInfo, miss_body: list) -> dict:
+    """Attributes of self read by the methods the miss path calls (transitively, within the class line) that functions outside the class line
+    assign through another receiver (`self._parser.reference_tree = tree`)."""
+    assert f.cls is not None
+    line = f.cls.mro()
+    own = {m.fq for c in line for m in c.methods.values()}
+    reads: dict[str, str] = {}
+    seen: set[str] = set()
+    todo = []
+    for st in miss_body:
+        for c in ast.walk(st):
+            if isinstance(c, ast.Call) and isinstance(c.func, ast.Attribute) and self_attr(c.func):
+                m = f.cls.lookup(c.func.attr)
+                if m is not None:
+                    todo.append(m)
+    while todo:
+        m = todo.pop()
+        if m.fq in seen:
+            continue
+        seen.add(m.fq)
+        for x in walk_local(m.node):
+            if isinstance(x, ast.Attribute) and isinstance(x.ctx, ast.Load):
+                a = self_attr(x)
+                if a is not None:
+                    g = f.cls.lookup(a)
+                    if g is None:
+                        reads.setdefault(a, m.qualname)
+            if isinstance(x, ast.Call) and isinstance(x.func, ast.Attribute) and self_attr(x.func):
+                g = f.cls.lookup(x.func.attr)
+                if g is not None and len(seen) < 60:
+                    todo.append(g)
+    if not reads:
+        return {}
+    hidden: dict[str, str] = {}
+    for g in eng.ix.all_functions:
+        if g.fq in own:
+            continue
+        for x in walk_local(g.node):
+            if isinstance(x, ast.Attribute) and isinstance(x.ctx, ast.Store) and x.attr in reads and not (isinstance(x.value, ast.Name) and x.value.id == "self"):
+                tys = eng.env(g).type_of(x.value)
+                if not tys or any(t in {c.fq for c in line} or t in {s_.fq for c in line for s_ in c.all_subclasses()} for t in tys):
+                    hidden.setdefault(x.attr, g.qualname)
+    return hidden
 
 
 def run(chk: Check, eng: Engine) -> None:
     chk.rule("R12-f", "values memoised on symbols, grammar nodes and converters do not depend on inputs their slot / key does not cover", floor=2)
     if memo_input_rule(chk, eng, "R12-f") < 2:
         raise AnalysisError("fewer than two memo idioms found on long-lived objects")
+    chk.rule("R12-h", "the clean-up of a parse generator (finally / except GeneratorExit around its yields) writes no state that parse requests share", floor=3)
+    if generator_cleanup_rule(chk, eng, "R12-h") < 3:
+        raise AnalysisError("fewer than three parse generators found")
     chk.rule("R12-g", "no function a parse request reaches is memoised by a decorator whose key leaves out something the function reads", floor=1)
     from .common_memo import decorated_memo_rule
     decorated_memo_rule(chk, eng, "R12-g", [f.fq for f in eng.ix.all_functions if f.cls is not None and f.cls.name == "Grammar" and f.name.startswith("parse")], "parse results")
@@ -620,6 +776,8 @@ from ..mutants import M  # noqa: E402
 _P = "src/fandango/language/grammar/parser/parser.py"
 _IP = "src/fandango/language/grammar/parser/iterative_parser.py"
 MUTANTS = [
+    M("parse-generator-resets-the-parser-on-close", "src/fandango/language/grammar/parser/parser.py", "        for tree, is_complete in self._iter_parser.consume(word):\n            yield tree\n",
+      "        try:\n            for tree, is_complete in self._iter_parser.consume(word):\n                yield tree\n        finally:\n            self._iter_parser.new_parse()\n", "R12-h"),
     M("forest-key-drops-mode", _P, "        cache_key = (word, start, mode, hookin_parent, starter_bit)\n", "        cache_key = (word, start, hookin_parent, starter_bit)\n", "R12-e"),
     M("forest-key-drops-starter-bit", _P, "        cache_key = (word, start, mode, hookin_parent, starter_bit)\n", "        cache_key = (word, start, mode, hookin_parent)\n", "R12-e"),
     M("forest-key-through-helper-drops-mode", _P, "        cache_key = (word, start, mode, hookin_parent, starter_bit)\n        forest: list[DerivationTree]\n        if cache_key in self._cache:\n            forest = self._cache[cache_key]\n",
@@ -638,6 +796,8 @@ MUTANTS = [
     M("new-parse-keeps-first-consume", _IP, "        self._first_consume = True\n        self._incomplete.clear()", "        self._incomplete.clear()", "R12-c"),
 ]
 TWINS = [
+    M("twin-parse-generator-logs-on-close", "src/fandango/language/grammar/parser/parser.py", "        for tree, is_complete in self._iter_parser.consume(word):\n            yield tree\n",
+      "        try:\n            for tree, is_complete in self._iter_parser.consume(word):\n                yield tree\n        finally:\n            position = self._iter_parser.max_position()\n", None),
     M("twin-forest-key-renamed", _P, "cache_key", "memo_key", None, count=4),
     M("twin-forest-memo-behind-helpers", _P, "        cache_key = (word, start, mode, hookin_parent, starter_bit)\n        forest: list[DerivationTree]\n        if cache_key in self._cache:\n            forest = self._cache[cache_key]\n",
       "        cache_key = (word, start, mode, hookin_parent, starter_bit)\n        forest: list[DerivationTree]\n        cached = self._cached_forest(cache_key)\n        if cached is not None:\n            forest = cached\n", None,
